@@ -193,6 +193,13 @@ TResults ==
   /\ UNCHANGED <<mvars, evars, params, usedKeys>> /\ Step
 
 \* get_results() / reading the accessors in the middle of a run changes nothing
+\* EngineBuilder.build() refuses a selection that would track nothing (every kernel key and every additional key
+\* excluded): there is no chain to store - the only situation in which it may refuse for this reason
+TBuildRefused ==
+  /\ IsEvent("build_refused")
+  /\ Chk("tracked_keys_respect_included_excluded", Tracked = {})
+  /\ UNCHANGED <<mvars, evars, params, usedKeys>> /\ Step
+
 TRead == IsEvent("read") /\ ~Silent /\ UNCHANGED <<mvars, evars, params, usedKeys>> /\ Step
-TNext == TRead \/ TSilent \/ TAppend \/ TSampleNext \/ TSampleAll \/ TInitState \/ TCall \/ TResults
+TNext == TRead \/ TBuildRefused \/ TSilent \/ TAppend \/ TSampleNext \/ TSampleAll \/ TInitState \/ TCall \/ TResults
 =============================================================================
